@@ -76,3 +76,59 @@ class GetEliminationOrder(Contract):
 
 
 register(GetEliminationOrder())
+
+
+class VEGetEliminationOrder(Contract):
+    """VariableElimination._get_elimination_order for an explicit order (all names in the model) and for None:
+    an accepted explicit order covers exactly V - Q - keys(e); an order touching Q or the evidence, or not covering
+    that set, is rejected with ValueError; None yields exactly that set."""
+    file = "pgmpy/inference/ExactInference.py"
+    qual = "VariableElimination._get_elimination_order"
+
+    def variants(self, ex):
+        from vf.pyvc.engine import DictV
+        for ol in ("list", "None"):
+            for el in ("dict", "None"):
+                model = new_graph("BayesianNetwork", "m")
+                this = Obj("VariableElimination", {"model": model, "variables": Coll("list", Atom, model.fields["_nodes"], nodup=True)})
+                order = atom_list("order", "list") if ol == "list" else NONE
+                ev = DictV(Atom, "scalar", z3.Const("ev_dom", set_sort(Atom)), z3.Const("ev_val", z3.ArraySort(Atom, Atom)), vsort=Atom) if el == "dict" else NONE
+                yield f"order={ol},evidence={el}", {"self": this, "variables": atom_list("Q", "list"), "evidence": ev,
+                                                    "elimination_order": order, "show_progress": Scalar(z3.BoolVal(False))}, {}
+
+    @staticmethod
+    def sets(args):
+        V = args["self"].fields["model"].fields["_nodes"]
+        Q = args["variables"].mem
+        ev = args["evidence"]
+        Ev = ev.dom if not isinstance(ev, type(NONE)) else empty_set(Atom)
+        x = fresh("x", Atom)
+        return V, Q, Ev, z3.Lambda([x], z3.And(V[x], z3.Not(Q[x]), z3.Not(Ev[x])))
+
+    def pre(self, ex, st, args):
+        g = args["self"].fields["model"]
+        x = fresh("x", Atom)
+        req = [wf_graph(g)]
+        if isinstance(args["elimination_order"], Coll):
+            req.append(z3.ForAll([x], z3.Implies(args["elimination_order"].mem[x], N_(g, x))))
+        return z3.And(*req)
+
+    def raises(self, ex, st, args):
+        if not isinstance(args["elimination_order"], Coll):
+            return {}
+        V, Q, Ev, T = self.sets(args)
+        O = args["elimination_order"].mem
+        x = fresh("x", Atom)
+        touches = z3.Exists([x], z3.And(z3.Or(Q[x], Ev[x]), O[x]))
+        return {"ValueError": z3.Or(touches, z3.Not(z3.ForAll([x], O[x] == T[x])))}
+
+    def post(self, ex, st, args, old, result):
+        if not isinstance(result, Coll):
+            return z3.BoolVal(False)
+        V, Q, Ev, T = self.sets(args)
+        x = fresh("x", Atom)
+        mem = result.mem if result.mem is not None else empty_set(Atom)
+        return z3.ForAll([x], mem[x] == T[x])
+
+
+register(VEGetEliminationOrder())
